@@ -28,7 +28,7 @@ from rustscan import ScanError  # noqa: E402
 import properties as P  # noqa: E402
 
 REPO = os.environ.get('VERIF_REPO', '/repo')
-RLIMIT = os.environ.get('VERIF_RLIMIT', '30')
+RLIMIT = os.environ.get('VERIF_RLIMIT', '10')
 VERUS_THREADS = os.environ.get('VERIF_VERUS_THREADS', '6')
 
 SEMANTIC = [
@@ -261,7 +261,7 @@ def run_verus(path, extra=()):
            '--rlimit', RLIMIT, '--num-threads', VERUS_THREADS] + list(extra)
     t0 = time.time()
     try:
-        r = subprocess.run(cmd, capture_output=True, text=True, env=env, cwd=os.path.dirname(path), timeout=1500)
+        r = subprocess.run(cmd, capture_output=True, text=True, env=env, cwd=os.path.dirname(path), timeout=int(os.environ.get('VERIF_VERUS_TIMEOUT', '600')))
     except subprocess.TimeoutExpired:
         raise Undecided('verus wall-clock timeout on ' + os.path.basename(path))
     wall = time.time() - t0
